@@ -454,6 +454,68 @@ def literal_pair(i: int, j: int) -> bool:
     return H.done(ok)
 
 
+# literals through the module-level yaql.eval (parsed-expression cache): whitespace inside a literal is part of its value
+WS_VALUES = ['a b', 'a  b', 'a\tb', 'a\nb', 'a\u00a0b', ' a', 'a ', 'ab']
+WSBOX = [(i,) for i in range(len(WS_VALUES))]
+
+
+def eval_literal_history(i: int, j: int, k: int) -> bool:
+    """
+    pre: 0 <= i < len(WS_VALUES) and 0 <= j < len(WS_VALUES) and 0 <= k < len(STYLES)
+    post: _
+    """
+    import yaql
+    a, b, q = WS_VALUES[WSBOX[i][0]], WS_VALUES[WSBOX[j][0]], STYLES[WSBOX[k][0]]
+    with H.NoTracing():
+        ok = True
+        for v in (a, b, a):
+            for text, want in ((spell(v, q), v), ('len(%s)' % spell(v, q), len(v))):
+                try:
+                    ok = ok and yaql.eval(text) == want
+                except Exception:
+                    ok = False
+    return H.done(ok)
+
+
+# a word is an operator only for the engine whose table lists it: engines with other tables read it as a keyword
+def _table_engines():
+    import yaql
+    from yaql.language import factory as F
+    std = yaql.YaqlFactory()
+    fewer = yaql.YaqlFactory()
+    fewer.operators = [r for r in fewer.operators if not (r and r[0] in ('in', 'mod'))]
+    more = yaql.YaqlFactory()
+    more.insert_operator('or', True, 'xor', F.OperatorType.BINARY_LEFT_ASSOCIATIVE, False)
+    return [std.create(), fewer.create(), more.create()], [set(['in', 'mod', 'and', 'or', 'not']), set(['and', 'or', 'not']),
+                                                          set(['in', 'mod', 'and', 'or', 'not', 'xor'])]
+
+
+TABLE_WORDS = ['in', 'mod', 'xor', 'out', 'and']
+if not H.P('driver'):
+    TABLE_ENGINES, TABLE_OPS = _table_engines()
+
+
+def keyword_tables(e1: int, e2: int, w: int) -> bool:
+    """
+    pre: 0 <= e1 < 3 and 0 <= e2 < 3 and 0 <= w < len(TABLE_WORDS)
+    post: _
+    """
+    i1, i2, word = WSBOX[e1][0], WSBOX[e2][0], TABLE_WORDS[WSBOX[w][0]]
+    with H.NoTracing():
+        ok = True
+        for ei in (i1, i2, i1):
+            eng, ops = TABLE_ENGINES[ei], TABLE_OPS[ei]
+            try:
+                r = ('ok', eng('len(%s)' % word).evaluate(context=yq.ROOT.create_child_context()))
+            except Exception as e:
+                r = ('err', type(e).__name__)
+            if word in ops:
+                ok = ok and r[0] == 'err'                 # an operator word alone is not an operand
+            else:
+                ok = ok and r == ('ok', len(word))        # any other word denotes its own text
+    return H.done(ok)
+
+
 def conditions(tier, seed):
     quick = tier == 'quick'
     slen = 4 if quick else 5
@@ -490,6 +552,12 @@ def conditions(tier, seed):
                 'bounds': 'every word of len <= %d over %r (enumerated) through the whole engine' % (wlen, KW_ALPHA)})
     out.append({'name': 'keyword[words]', 'func': 'keyword_words', 'timeout': 100,
                 'bounds': '%d selected words (constants, operator look-alikes, underscores, non-ASCII, long)' % len(WORDS)})
+    out.append({'name': 'eval_literal_history', 'func': 'eval_literal_history', 'timeout': t,
+                'bounds': 'ordered pairs of %d strings that differ only in inner/outer white space, 3 quote styles, evaluated one after '
+                          'the other through the module-level yaql.eval (selectors; each path one concrete history)' % len(WS_VALUES)})
+    out.append({'name': 'keyword_tables', 'func': 'keyword_tables', 'timeout': t,
+                'bounds': 'the words in/mod/xor/out/and read by three engines (standard table, table without in and mod, table with a '
+                          'host-defined xor) in every order (selectors; each path one concrete history)'})
     out.append({'name': 'literal_pair', 'func': 'literal_pair', 'timeout': t,
                 'bounds': 'every ordered pair of %d literal spellings (ints, integral floats, constants, the three quote styles, '
                           'values ending in a backslash, keywords) in one expression: each keeps its own value and type '
